@@ -48,7 +48,7 @@ func htmlImageList(n *html.Node) []string {
 // separate words for a reader of the rendered HTML; every other element does
 // (block-level elements, table parts, media, foreign content, unknown tags).
 var inlineNoBreak = map[string]bool{"a": true, "b": true, "i": true, "em": true, "strong": true, "span": true, "u": true, "code": true, "font": true, "sub": true, "sup": true,
-	"small": true, "abbr": true, "cite": true, "q": true, "s": true, "mark": true, "time": true, "var": true, "kbd": true, "label": true, "tt": true, "big": true, "del": true, "ins": true, "wbr": true}
+	"small": true, "abbr": true, "cite": true, "q": true, "s": true, "mark": true, "time": true, "var": true, "kbd": true, "label": true, "tt": true, "big": true, "del": true, "ins": true, "wbr": true, "strike": true, "samp": true, "nobr": true}
 
 // renderedWords returns the whitespace-separated words of the visible text of
 // n as a browser would show them: text nodes are joined directly, block-level
@@ -104,6 +104,8 @@ func asciiWordCount(text string) int {
 func runC09(c *Ctx, idx int) {
 	if idx%3 == 2 {
 		prof := Profile{Inline: true, JSAnchors: true, Headings: true, Lists: true, Quotes: true, Pre: true, Chrome: true, Wrappers: true, Punct: true, ShortBias: 300}
+		prof.Glue = idx%4 < 2      // words that continue across inline boundaries
+		prof.OddSpaces = idx%5 < 2 // no-break spaces, em spaces, ideographic spaces between words
 		if idx%2 == 0 {
 			// short pages with "unlikely" wrappers: the extraction falls back to
 			// its second pass (markers ignored) and the count must follow
